@@ -1,5 +1,6 @@
 """Per-property checks: which engines decide a property, evidence, exit codes."""
 import json, os, sys, time, traceback
+from vlib import build_harness
 from vlib import *
 import engines
 import macroeng
@@ -55,6 +56,10 @@ def plan(pid, tier, seed):
         runs.append(("ids", lambda: macroeng.ids_enum(tier, seed)))
     if pid in ("C15", "C14"):
         # the declaration-size boundary: a world with 256 archetypes (and 257 must be rejected)
+        runs.append(("maxworld", lambda: macroeng.maxworld(tier, seed)))
+    if pid in ("C19", "C02"):
+        runs.append(("maxworld-32", lambda: macroeng.maxworld(tier, seed, features=("32_components",))))
+    if pid in ("C02",):
         runs.append(("maxworld", lambda: macroeng.maxworld(tier, seed)))
     if pid in ("C17",):
         runs.append(("maxworld-events", lambda: macroeng.maxworld(tier, seed, features=("events",))))
@@ -115,6 +120,20 @@ def run_check(pid, tier, seed):
         try:
             results.append(thunk())
         except ToolError as e:
+            if pid == "C19" and "rustc of harness failed" in str(e) and name not in ("drive-dbg", "boundary-dbg"):
+                # The harness is a client program that compiles against the default configuration
+                # (checked right here). If the SAME source no longer compiles under a feature set or
+                # profile, that configuration changed more than it documents.
+                try:
+                    build_harness((), False)
+                    base_ok = True
+                except ToolError:
+                    base_ok = False
+                if base_ok:
+                    results.append({"engine": name, "cfg": name.split("-", 1)[-1], "tier": tier, "violations": [
+                        {"tags": ["C19"], "what": "a client program (the conformance harness) that compiles in the default configuration does not compile in configuration %s: %s" % (name.split("-", 1)[-1], str(e)[-600:]),
+                         "at": 0, "event": {"configuration": name}, "origin": {"engine": name}}], "samples": [], "wall_s": 0, "cached": False})
+                    continue
             # one engine could not run (e.g. the harness no longer compiles against the tree under
             # test): the other engines still decide; without a violation from them the check
             # ends as a tool error (exit 2), never as OK
